@@ -493,47 +493,7 @@ func c03DryGuards(e *Env, s *Sched) {
 			targets[ir.FuncName(nr.Teardown)] = true
 		}
 	}
-	depthDry := 0
-	var isDry func(v ssa.Value) bool
-	isDry = func(v ssa.Value) bool {
-		// the scheduler's dry flag, wherever the scheduler is reached from (`sc.dry`, `w.sc.dry`)
-		var base ssa.Value
-		field := -1
-		switch x := ir.Resolve(v).(type) {
-		case *ssa.UnOp:
-			if fa, isFA := x.X.(*ssa.FieldAddr); isFA && x.Op == token.MUL {
-				base, field = fa.X, fa.Field
-			}
-		case *ssa.Field:
-			base, field = x.X, x.Field
-		}
-		if base != nil && ir.FieldNameOf(base.Type(), field) == e.schedFields().Dry && strings.HasSuffix(ir.NamedType(base.Type()), ".Scheduler") {
-			return true
-		}
-		if p, ok := e.C.PathOf(v); ok && p.Dotted() == e.schedFields().Dry && strings.HasSuffix(ir.NamedType(p.Root.Type()), ".Scheduler") {
-			return true
-		}
-		// the flag kept in a small helper object (`stepRunner{dry: cfg.Dry, …}`,
-		// `runner{dry: sc.dry}`): a field of an unexported struct of the package into which
-		// only the configuration's Dry or the scheduler's flag is ever stored
-		if base != nil && depthDry < 2 {
-			if vals := e.helperObjectFields(base.Type(), field); len(vals) > 0 {
-				depthDry++
-				all := true
-				for _, sv := range vals {
-					if pp, okp := e.C.PathOf(sv); okp && pp.Suffix("Dry") && strings.HasSuffix(ir.NamedType(pp.Root.Type()), ".Config") {
-						continue
-					}
-					if !isDry(sv) {
-						all = false
-					}
-				}
-				depthDry--
-				return all
-			}
-		}
-		return false
-	}
+	isDry := func(v ssa.Value) bool { return e.isDryFlag(v, 0) }
 	for _, f := range e.RepoFuncsSorted() {
 		if rootFn(f).Package() != sp {
 			continue
@@ -798,6 +758,47 @@ func (e *Env) callMayReach(ci ssa.CallInstruction, pred func(*ssa.Function) bool
 	for _, c := range callees {
 		if e.ReachesRepo(c, pred) {
 			return true
+		}
+	}
+	return false
+}
+
+// isDryFlag: v reads the scheduler's dry flag - wherever the scheduler is reached from
+// (`sc.dry`, `w.sc.dry`), or kept in a small helper object into which only the
+// configuration's Dry or the scheduler's flag is ever stored.
+func (e *Env) isDryFlag(v ssa.Value, depthDry int) bool {
+	// the scheduler's dry flag, wherever the scheduler is reached from (`sc.dry`, `w.sc.dry`)
+	var base ssa.Value
+	field := -1
+	switch x := ir.Resolve(v).(type) {
+	case *ssa.UnOp:
+		if fa, isFA := x.X.(*ssa.FieldAddr); isFA && x.Op == token.MUL {
+			base, field = fa.X, fa.Field
+		}
+	case *ssa.Field:
+		base, field = x.X, x.Field
+	}
+	if base != nil && ir.FieldNameOf(base.Type(), field) == e.schedFields().Dry && strings.HasSuffix(ir.NamedType(base.Type()), ".Scheduler") {
+		return true
+	}
+	if p, ok := e.C.PathOf(v); ok && p.Dotted() == e.schedFields().Dry && strings.HasSuffix(ir.NamedType(p.Root.Type()), ".Scheduler") {
+		return true
+	}
+	// the flag kept in a small helper object (`stepRunner{dry: cfg.Dry, …}`,
+	// `runner{dry: sc.dry}`): a field of an unexported struct of the package into which
+	// only the configuration's Dry or the scheduler's flag is ever stored
+	if base != nil && depthDry < 2 {
+		if vals := e.helperObjectFields(base.Type(), field); len(vals) > 0 {
+			all := true
+			for _, sv := range vals {
+				if pp, okp := e.C.PathOf(sv); okp && pp.Suffix("Dry") && strings.HasSuffix(ir.NamedType(pp.Root.Type()), ".Config") {
+					continue
+				}
+				if !e.isDryFlag(sv, depthDry+1) {
+					all = false
+				}
+			}
+			return all
 		}
 	}
 	return false
